@@ -26,7 +26,7 @@ import random
 import re
 import time
 from concurrent.futures import ThreadPoolExecutor
-from datetime import timedelta
+from datetime import datetime, timedelta
 
 import numpy as np
 
@@ -172,7 +172,29 @@ def sensor_set(ctx: Ctx, rng):
         nid += 1
         add(_variant(by_type[t], nid, f"{by_type[t]['name']} rect{az_e:g}x{el_e:g}", **mods), "tiny",
             "main_init+non-square FoV / slow mount")
+    # elevation range given in DECREASING order (documented "order independent") and bright limiting
+    # magnitudes (the magnitude limit is then reached at tens of km, where range and relative speed in km/s
+    # are of the same order)
+    for n, (t, el_rng, vm) in enumerate((("adv_radar", [85.0, 3.0], None), ("optical", [89.9, 0.5], None),
+                                         ("optical", None, -3.5))):
+        mods = {"tiny": True, "background_observations": bool(n % 2), "field_of_view": conic(8.0)}
+        if el_rng:
+            mods["elevation_range"] = el_rng
+        if vm is not None:
+            mods["detectable_vismag"] = vm
+        nid += 1
+        add(_variant(by_type[t], nid, f"{by_type[t]['name']} el-desc/bright {n}", **mods), "tiny",
+            "main_init+decreasing elevation range / bright limit")
     sid = 61000
+    for n, (i, el_rng, vm) in enumerate(((0, [80.0, -80.0], None), (4, None, -2.6), (2, [60.0, -89.0], -4.0))):
+        mods = {"tiny": True, "background_observations": True, "field_of_view": conic(12.0)}
+        if el_rng:
+            mods["elevation_range"] = el_rng
+        if vm is not None:
+            mods["detectable_vismag"] = vm
+        sid += 1
+        add(_variant(space[i % len(space)], sid, f"{space[i % len(space)]['name']} el-desc/bright {n}", **mods), "tiny",
+            "sat_sensors+decreasing elevation range / bright limit")
     radars = [g for g in ground if g["sensor"]["type"] in ("radar", "adv_radar")]
     for n, s in enumerate(space):
         fov = [conic(10.0), rect(30.0, 20.0), conic(90.0), rect(4.0, 4.0)][n % 4]
@@ -331,6 +353,7 @@ class Runner:
                   "targets": [{"id": a.simulation_id, "eci": [float(v) for v in a.eci_state],
                                "area": float(a.visual_cross_section), "refl": float(a.reflectivity)} for a in targets],
                   "pointing_azel": [Lp["az"], Lp["el"]], "pointing_sez": Lp["sez"].tolist(),
+                  "sun_eci": sun.tolist(),
                   "tracked_prior": None if tracked is None else [np.asarray(tracked[0], float).tolist(), float(tracked[1])],
                   "target_azelrng": [[L["az"], L["el"], L["rng"]] for L in looks]}
         # ---------------- the real call
@@ -544,7 +567,7 @@ def noise_statistics(run: Runner, rng, want):
             site0, _ = run.site_of(sa)
             a0, a1 = P["az_mask"]
             az = (a0 + ((a1 - a0) % (2 * math.pi)) / 2.0) % (2 * math.pi)
-            el = (max(P["el_mask"][0], 0.0) + P["el_mask"][1]) / 2.0
+            el = (max(min(P["el_mask"]), 0.0) + max(P["el_mask"])) / 2.0
             for rk in (900.0, 2500.0, 8000.0, 20000.0, 38000.0):
                 if (P["min_range"] or 0.0) < rk < (P["max_range"] or 1e9):
                     cands.append((app.target_agents[tids[0]], place(site0, az, el, rk, rand_vel(rng))))
@@ -684,7 +707,7 @@ def _synthetic_sensor(run: Runner, rng, sa, prim, bgs, scale):   # noqa: C901, P
     step = float(sa.dt_step)
     sun = np.asarray(run.Sun.getPosition(sa.julian_date_epoch), float).reshape(3)
     a0, a1 = P["az_mask"]
-    e0, e1 = P["el_mask"]
+    e0, e1 = sorted(P["el_mask"])                  # documented as an order-independent pair
     span = a1 - a0 if a1 >= a0 else a1 - a0 + G.TWO_PI
     az_mid = (a0 + span / 2.0) % G.TWO_PI
     el_mid = max(e0, 0.35) if e1 > 0.5 else (e0 + e1) / 2.0
@@ -831,6 +854,26 @@ def _synthetic_sensor(run: Runner, rng, sa, prim, bgs, scale):   # noqa: C901, P
                     r_try *= 10 ** ((det + sgn * d - mag) / 5.0)
                 if 100.0 < r_try < 5e6:
                     go("vismag-edge", place_dir(site, dirv, r_try, rand_vel(rng)))
+        # -- 12b. limiting magnitude reached at close range with a fast relative motion (range in km and
+        #         relative speed in km/s of the same order): the magnitude depends on the RANGE only
+        if det < 5.0:
+            for dv in (1.0, 5.0, 15.0):
+                for d in (1e-5, 1e-2, 0.3):
+                    for sgn in (-1, 1):
+                        up = site.s[:3] if host == "space" else site.R.T @ site.U
+                        dirv = rotate_from(up, rng.uniform(0.2, 0.8), rng)
+                        if G.ang(dirv, sun - site.s[:3]) < 0.5:
+                            dirv = rotate_from(up, 0.1, rng)
+                        r_try = 20.0
+                        for _ in range(8):
+                            L = site.look(place_dir(site, dirv, r_try, [0, 0, 0]))
+                            mag = G.vismag(site, L, sun, float(prim.visual_cross_section), float(prim.reflectivity))
+                            if not math.isfinite(mag):
+                                break
+                            r_try *= 10 ** ((det + sgn * d - mag) / 5.0)
+                        if 1.0 < r_try < 500.0:
+                            vel = site.s[3:] + dv * perp(dirv, rng) * 0.3 - dv * 0.954 * np.asarray(dirv) / np.linalg.norm(dirv)
+                            go("vismag-close", place_dir(site, dirv, r_try, vel))
         if host == "space":
             # -- 10. Sun exclusion cone
             for d in (1e-9, 1e-5, 1e-3, 5e-2):
@@ -897,6 +940,25 @@ def classify(inv: str, rec: dict, inp: dict) -> tuple[str, str]:
                     return ("rectfov-seam-not-wrapped", f"{who}: miss 'Field of View' although the target is inside the "
                             f"rectangular field of view across the 0/360 seam (pointing az {math.degrees(azp):.4f}, "
                             f"target az {math.degrees(azt):.4f} deg)")
+            if m["r"] == "el" and vec.get("el") == 1:
+                er = inp["sensor_cfg"]["sensor"].get("elevation_range")
+                if er and er[0] > er[1]:
+                    return ("elevation-range-decreasing-order-rejects-target", f"{who}: miss 'Elevation Mask' although the "
+                            f"elevation {math.degrees(inp['target_azelrng'][m['t']][1]):.3f} deg lies inside the configured "
+                            f"(documented order-independent) elevation_range {er}")
+            if m["r"] == "vismag" and vec.get("vismag") == 1 and "sun_eci" in inp:
+                tg = inp["targets"][m["t"]]
+                rel = np.array(tg["eci"], float) - np.array(inp["sensor_eci"], float)
+                r3, r6 = float(np.linalg.norm(rel[:3])), float(np.linalg.norm(rel))
+                det = inp["sensor_cfg"]["sensor"].get("detectable_vismag")
+                site = G.Site(inp["sensor_eci"], datetime.fromisoformat(inp["epoch"]))
+                m3 = G.vismag(site, site.look(tg["eci"]), np.array(inp["sun_eci"], float), tg["area"], tg["refl"])
+                m6 = m3 + 5.0 * math.log10(r6 / r3)
+                if det is not None and m3 <= det < m6:
+                    return ("vismag-range-from-6-vector-norm", f"{who}: miss 'Visual Magnitude' although the magnitude at the "
+                            f"true range {r3:.3f} km is {m3:.3f} <= limit {det}; the reported miss is explained by the norm of "
+                            f"the full state difference ({r6:.3f}, relative speed {math.sqrt(r6 * r6 - r3 * r3):.2f} km/s "
+                            f"mixed in): magnitude {m6:.3f}")
             if m["r"] == "unknown" or vec.get(m["r"]) == 1 or m["r"] not in ["slew", "fov", *G.needed(rec["kind"], rec["host"])]:
                 return (f"miss-reason-false-{m['r']}", f"{who}: miss reason '{m['r']}' names a constraint that does not fail")
         return "miss-reason-false", f"{who}: miss reason is not a failing constraint"
@@ -1066,7 +1128,8 @@ def run(ctx: Ctx):
         "per kind/origin); the errors whitened with the inverse symmetric square root of the CONFIGURED covariance must have "
         f"mean 0 and covariance I within {NOISE_BOUND} standard errors (Gaussian standard errors sqrt(1/n), sqrt(2/n)); the numpy "
         "generator is seeded, so the verdict is reproducible",
-        "elevation masks are given in increasing order (all repository configurations); time-bias events not explored",
+        "elevation_range is read as the documented order-independent pair (variants in decreasing order included); "
+        "time-bias events not explored",
         "photometric formulas are re-evaluated as documented (wiring only), not validated against physics",
     ]
     with ThreadPoolExecutor(1) as ex:
